@@ -237,9 +237,7 @@ UnspecCon(p, S, c) ==
                                                /\ ~S.sched[c.tasks[j]] /\ S.sched[c.tasks[k]]
          THEN {"ordered-group-skipped-member-in-between"} ELSE {}
     [] c.cls = "ScheduleNTasksInTimeIntervals" ->
-         (IF \E t \in SchedOf(S, SeqToSet(c.tasks)) : NumIn(c.intervals, S.s[t], S.e[t]) > 1
-          THEN {"ntasks-in-two-intervals"} ELSE {})
-         \cup
+         \* (a task lying in two overlapping intervals is ONE task: the statement counts tasks)
          \* a task that overlaps an interval without lying inside it: the documentation only speaks of
          \* the tasks "in" the intervals (the implementation keeps the other tasks entirely outside)
          (IF \E t \in SchedOf(S, SeqToSet(c.tasks)) : \E i \in 1..Len(c.intervals) :
